@@ -4,4 +4,4 @@ From Coq Require Import Extraction ExtrOcamlBasic.
 Require Import Celma.Common.Res Celma.Log.FilterOpsGen Celma.Log.FilterModel.
 Extraction Language OCaml.
 Extraction "../ocaml/gen/c14_model.ml" init_world set_policy step log_ids log_name discard_id
-  discard_name process_level.
+  discard_name process_level macro_ids macro_name.
